@@ -2173,13 +2173,11 @@ ZSTD_decompressBlock_internal(ZSTD_DCtx* dctx,
 
 #ifndef ZSTD_FORCE_DECOMPRESS_SEQUENCES_LONG
         /* else */
-        if (dctx->litBufferLocation == ZSTD_split) {
-            ZSTD_VERIF_PROBE(ZSTD_VP_seqDecoderSplitLit);
+        ZSTD_VERIF_PROBE(dctx->litBufferLocation == ZSTD_split ? ZSTD_VP_seqDecoderSplitLit : ZSTD_VP_seqDecoderShort);
+        if (dctx->litBufferLocation == ZSTD_split)
             return ZSTD_decompressSequencesSplitLitBuffer(dctx, dst, dstCapacity, ip, srcSize, nbSeq, isLongOffset);
-        } else {
-            ZSTD_VERIF_PROBE(ZSTD_VP_seqDecoderShort);
+        else
             return ZSTD_decompressSequences(dctx, dst, dstCapacity, ip, srcSize, nbSeq, isLongOffset);
-        }
 #endif
     }
 }
